@@ -6,6 +6,14 @@ histories of snapshot / delete / clean by any user, with â€” after every step â€
     `access.graph` for every (key file, password) unlock attempt), and
   * with GROUND TRUTH kept by `World` (what each snapshot captured, who made it, when) â€” the direct oracles of C06 and C15.
 
+Clients keep state between commands (mode 'c06'): every user works through a CLIENT = a snapshot cache directory (none /
+one directory for all users, the CLI default on one machine / one per user / mixed) and either a fresh Repository object per
+command (CLI) or one long-lived object; the read-only commands observed after every step run through the same client (so every
+destructive command is preceded by snapshot-loading commands under the same key and the same persistent state) or, in other
+worlds, from a state-less machine (so destructive commands also meet cold and half-warm caches).  The client's persistent state
+is part of the tie: the cache directory before / after every mutating command is abstracted to the model's `Cache` and compared
+with `CacheCmd.stepC` / `cacheAfterLoad` / `cacheAfterDelete` (`access.client`).
+
 Shared by harness/props/c06.py and c15.py (each applies its own oracles and non-triviality rule).  One worker process per
 world; the parent talks to the driver."""
 import datetime as _dt
@@ -38,9 +46,31 @@ def gen_cfg(r, mode):
     for k in range(n_extra):
         kind = r.choice(['shared', 'shared', 'independent', 'independent', 'clone']) if enc else 'clone'
         users.append({'kind': kind, 'base': r.randrange(k + 1), 'kdf': r.randrange(len(KDFS)), 'password': r.randrange(len(PASSWORDS))})
-    return {'enc': enc, 'users': users, 'chunking': r.choice([(8, 32), (8, 32), (16, 64), (5, 12), (13, 50)]),
-            'concurrent': r.choice([1, 2, 3, 5]), 'async_backend': r.random() < 0.3,
-            'cipher': r.choice([None, None, {'name': 'chacha20_poly1305'}, {'name': 'aes_gcm', 'key_bits': 128}]) if enc else None}
+    cfg = {'enc': enc, 'users': users, 'chunking': r.choice([(8, 32), (8, 32), (16, 64), (5, 12), (13, 50)]),
+           'concurrent': r.choice([1, 2, 3, 5]), 'async_backend': r.random() < 0.3,
+           'cipher': r.choice([None, None, {'name': 'chacha20_poly1305'}, {'name': 'aes_gcm', 'key_bits': 128}]) if enc else None}
+    if mode == 'c06':
+        cfg['clients'] = gen_clients(r, n_extra + 1)
+    return cfg
+
+
+CACHE_TOPOLOGIES = ['none', 'one-directory', 'one-directory', 'per-user', 'mixed']
+
+
+def gen_clients(r, n_users):
+    """client-side persistent state of every user: which cache directory its commands use (None = --no-cache), whether the
+    read-only commands observed after every step go through that client too, and whether the client is one long-lived
+    Repository object per user (library use) instead of one object per command (CLI)"""
+    topo = r.choice(CACHE_TOPOLOGIES)
+    if topo == 'none':
+        cache = [None] * n_users
+    elif topo == 'one-directory':
+        cache = [0] * n_users
+    elif topo == 'per-user':
+        cache = list(range(n_users))
+    else:
+        cache = [r.choice([None, 0, 0, 1]) for _ in range(n_users)]
+    return {'topology': topo, 'cache': cache, 'observe_through_client': r.random() < 0.65, 'long_lived': r.random() < 0.25}
 
 
 def gen_fileset(r, blocks, prev):
@@ -125,6 +155,7 @@ class AWorld(World):
     string form has no fraction."""
     _us = 0
     jitter = None
+    unsettled = False
 
     def tick(self, whole_second=False):
         from .world import FakeDatetime
@@ -138,6 +169,86 @@ class AWorld(World):
                 self._us += 1
         FakeDatetime._now = _dt.datetime(2030, 1, 1) + _dt.timedelta(microseconds=self._us)
         return self.clock
+
+    # ---- clients (persistent client-side state); `clients = None`: every command is a fresh, cache-less Repository object
+    clients = None
+    _repos = None
+    _abstraction = None
+
+    def cache_dir(self, ui):
+        if self.clients is None or self.clients['cache'][ui] is None:
+            return None
+        return self.scratch.dir('client_cache_%d' % self.clients['cache'][ui])
+
+    def client(self, ui):
+        """the Repository object user `ui` issues its next command through (None = let World make a fresh cache-less one)"""
+        if self.clients is None:
+            return None
+        settle_loaders(self)
+        if not self.clients['long_lived']:
+            return self.repo(ui, cache_directory=self.cache_dir(ui))
+        if self._repos is None:
+            self._repos = {}
+        if ui not in self._repos:
+            self._repos[ui] = self.repo(ui, cache_directory=self.cache_dir(ui))
+        return self._repos[ui]
+
+    def observer(self, ui):
+        """the Repository object the read-only commands of `ui` observed after a step run through"""
+        if self.clients is None or not self.clients['observe_through_client']:
+            if self.clients is not None:
+                settle_loaders(self)
+            return self.repo(ui)
+        return self.client(ui)
+
+    def abstract_cache(self, ui):
+        """the user's cache directory as the model's `Cache` (None = no cache directory)"""
+        cdir = self.cache_dir(ui)
+        if cdir is None:
+            return None
+        from . import cachekit
+        if self._abstraction is None:
+            self._abstraction = cachekit.Abstraction(self)
+        settle_loaders(self)
+        return self._abstraction.cache(cdir)
+
+
+# `_load_snapshots` leaves its loader threads running when the command raises in the middle of the loop ("different key"); they
+# go on storing into the cache directory.  Clients of a history run one command at a time: wait for them between commands.
+_EXECUTORS = []
+
+
+def track_executors():
+    import replicat.repository as rr
+    base = rr.ThreadPoolExecutor
+    if getattr(base, '_verif_access_tracked', False):
+        return
+
+    class Tracked(base):
+        _verif_access_tracked = True
+
+        def __init__(self, *a, **kw):
+            super().__init__(*a, **kw)
+            _EXECUTORS.append(self)
+
+    rr.ThreadPoolExecutor = Tracked
+
+
+def settle_loaders(w, timeout=0.2):
+    """â†’ nothing; sets `w.unsettled` when a thread of an earlier command could not be waited for (parked on a finished event loop)"""
+    keep = {id(v) for repo in (w._repos or {}).values() for v in vars(repo).values()}
+    rest = []
+    while _EXECUTORS:
+        ex = _EXECUTORS.pop()
+        if id(ex) in keep:
+            rest.append(ex)       # the long-lived client's own backend executor
+            continue
+        ex.shutdown(wait=False, cancel_futures=True)
+        for th in list(getattr(ex, '_threads', ())):
+            th.join(timeout)
+            if th.is_alive():
+                w.unsettled = True
+    _EXECUTORS.extend(rest)
 
 
 def add_user(w, kind, base, kdf, password):
@@ -203,7 +314,7 @@ def observe_user(w, ui, r, viol, step_no, extra):
     rp = {'step': step_no, 'user': mu, 'user_kind': u.kind, 'snapshot_regex': sre, 'file_regex': fre}
     queries, impl = [], []
     from replicat.utils import FileListColumn, SnapshotListColumn
-    repo = w.repo(ui)
+    repo = w.observer(ui)
     hd = repo.props.hash_digest
 
     # ---------------- list-snapshots
@@ -337,7 +448,7 @@ def observe_user(w, ui, r, viol, step_no, extra):
     impl.append({'kind': 'listfiles', 'cols': cols, 'rows': impl_rows, 'error': ferr, 'regex': [sre, fre], 'tsmap': tsmap})
 
     # ---------------- restore
-    rerr, tree = w.restore(ui, snapshot_regex=sre2, file_regex=fre)
+    rerr, tree = w.restore(ui, snapshot_regex=sre2, file_regex=fre, repo=w.observer(ui) if w.clients is not None else None)
     sel = expected_selection(w, u, sre2, fre)
     rp2 = dict(rp, snapshot_regex=sre2)
     if rerr is not None:
@@ -420,6 +531,26 @@ def unlock_matrix(w, cfg, r, viol):
 
 
 # ------------------------------------------------------------------------------------------------ one world
+def client_state(w, u, cache, loaded_before):
+    """what the client that is about to run a command of user `u` remembers: 'stateless' (fresh object, no cache directory),
+    'object-only' (long-lived object, no cache directory), else the cache directory's content relative to the snapshots that
+    are present now â€” 'cold' (no entry for any of them), 'warm' (entries for some), 'warm+foreign' (an entry for a present
+    snapshot of u's family that belongs to ANOTHER key: loaded before without its private part); suffix '/own-load' when a
+    snapshot-loading command already ran under this very key through this state"""
+    if cache is None:
+        base = 'object-only' if (w.clients or {}).get('long_lived') else 'stateless'
+    else:
+        held = {tuple(e[0][1:]) for e in cache if e[0][0] == 'snap' and e[1][0] == 'snap'}
+        mine = [w.snap_by_sid[s] for s in present(w) if (w.snap_by_sid[s]['fam'], s) in held]
+        if not mine:
+            base = 'cold'
+        elif any(d['fam'] == u.fam and d['owner'] != u.keyid for d in mine) and w.enc:
+            base = 'warm+foreign'
+        else:
+            base = 'warm'
+    return base + ('/own-load' if loaded_before and base != 'stateless' else '')
+
+
 def run_world(arg):
     seed, idx, label, n_ops, mode = arg
     from .. import common
@@ -427,12 +558,21 @@ def run_world(arg):
     r = rng_for(seed, label, idx)
     cfg = gen_cfg(r, mode)
     log = {'idx': idx, 'cfg': cfg, 'steps': [], 'violations': [], 'flags': set(), 'mode': mode, 'extra': {}, 'label': label, 'n_ops': n_ops}
+    R.PERSISTENT_LOOP = None      # (a worker process runs many worlds; an earlier one may have been abandoned half-way)
+    del _EXECUTORS[:]
     viol = log['violations']
     with R.Scratch(f'w_{label}_{idx}') as sc:
         w = AWorld(sc, enc=cfg['enc'], chunking=cfg['chunking'], concurrent=cfg['concurrent'], cipher=cfg['cipher'], async_backend=cfg['async_backend'])
         w.jitter = rng_for(seed, label, idx, 'clock')
         for x in cfg['users']:
             add_user(w, x['kind'], x['base'], KDFS[x['kdf']], PASSWORDS[x['password']])
+        w.clients = cfg.get('clients')
+        if w.clients is not None:
+            track_executors()
+            if w.clients['long_lived']:
+                import asyncio
+                R.PERSISTENT_LOOP = asyncio.new_event_loop()      # one loop for the whole history: Repository objects are bound to it
+        loaded_through = set()        # (cache directory | client object, user key) pairs that already ran a snapshot-loading command
         if cfg['enc']:
             log['unlock'] = unlock_matrix(w, cfg, r, viol)
         blocks = [r.randbytes(r.choice([24, 40, 64, 100, 130])) for _ in range(5)] + [bytes(64)]
@@ -452,12 +592,19 @@ def run_world(arg):
             k = r.random()
             st = {'user': w.model_user(ui), 'user_kind': u.kind, 'store_before': store0}
             rp = {'step': step_no, 'user': st['user'], 'user_kind': u.kind}
+            if w.clients is not None:
+                cache0 = w.abstract_cache(ui)
+                ckey = (w.clients['cache'][ui] if w.clients['cache'][ui] is not None else ('object', ui) if w.clients['long_lived'] else None)
+                st['client'] = {'cache_dir': w.clients['cache'][ui], 'cache_before': cache0, 'long_lived': w.clients['long_lived'],
+                                'state': client_state(w, u, cache0, ckey is not None and (ckey, u.keyid, u.fam) in loaded_through)}
+                rp['client'] = {'cache_dir': w.clients['cache'][ui], 'long_lived': w.clients['long_lived'], 'state': st['client']['state'],
+                                'topology': w.clients['topology'], 'observe_through_client': w.clients['observe_through_client']}
             p_snap = 0.5 if mode == 'c15' else 0.42
             if k < p_snap or not pres:
                 repeat = prev is not None and r.random() < 0.3
                 fs = prev if repeat else gen_fileset(r, blocks, prev)
                 note = r.choice([None, None, 'note %d' % step_no, 'weekly backup', 'Ã¼nÃ¯'])
-                res = w.snapshot(ui, fs, whole_second=r.random() < 0.3, note=note)
+                res = w.snapshot(ui, fs, whole_second=r.random() < 0.3, note=note, repo=w.client(ui))
                 prev = fs
                 extra['recorded'][res['sid']] = res['result'].data['files']
                 st.update(kind='snapshot', op=res['op'], error=None, uploaded=sorted({tuple(w.abstract_name(x)) for x in res['uploaded']}),
@@ -476,7 +623,7 @@ def run_world(arg):
                 printed = []
                 try:
                     from replicat.utils import SnapshotListColumn
-                    printed = [row[0].strip() for row in w.list_snapshots(ui, columns=[SnapshotListColumn.NAME])]
+                    printed = [row[0].strip() for row in w.list_snapshots(ui, columns=[SnapshotListColumn.NAME], repo=w.observer(ui))]
                 except Exception:  # noqa: BLE001
                     pass
                 name2sid = {d['name']: s for s, d in w.snap_by_sid.items()}
@@ -497,7 +644,7 @@ def run_world(arg):
                     sids = [r.choice(pres), 999000 + step_no] if r.random() < 0.5 else [999000 + step_no]
                     target = 'unknown'
                 r.shuffle(sids)
-                res = w.delete(ui, sids)
+                res = w.delete(ui, sids, repo=w.client(ui))
                 st.update(kind='delete', op=res['op'], error=res['error'], targets=sids, target=target)
                 # direct oracles: what delete must (not) do, by key relation
                 fams = {w.snap_by_sid[s]['fam'] for s in sids if s in w.snap_by_sid}
@@ -519,12 +666,17 @@ def run_world(arg):
                     if sorted(gone) != sorted(set(sids)):
                         viol.append(('c15', 'names:delete-removed-other-snapshots', f'delete of printed names {sorted(set(sids))} removed snapshots {sorted(gone)}', rp))
             else:
-                res = w.clean(ui)
+                res = w.clean(ui, repo=w.client(ui))
                 st.update(kind='clean', op=res['op'], error=res['error'])
                 if res['error'] is not None:
                     viol.append(('c06', 'access:clean-failed', f'clean by {st["user"]} raised {res["error"]}', rp))
             st['store_after'] = w.abstract_store(others)
             st['mutations'] = [[t[0], w.abstract_name(t[1]) or ['other', 0]] for t in res.get('trace', []) if t[0] in ('put', 'del')]
+            if w.clients is not None:
+                st['client']['cache_after'] = w.abstract_cache(ui)
+                st['client']['settled'] = not w.unsettled
+                if st['kind'] in ('delete', 'clean') and ckey is not None:
+                    loaded_through.add((ckey, u.keyid, u.fam))
             # ---- frame: nothing of another family, config, strays is touched by any command of this user
             for loc, data in objects0.items():
                 n = w.abstract_name(loc)
@@ -549,14 +701,24 @@ def run_world(arg):
                     if err is not None or tree != d['truth']:
                         rel = 'shared' if d['fam'] == u.fam else 'independent'
                         damaged.add(s)
+                        # which of the chunks the snapshot references (ground truth) did this command remove?
+                        loc_of = {v: k for k, v in w.chunk_names.items()}
+                        gone = sorted(c for c in set(d['body']['chunks']) if loc_of.get((d['fam'], c)) in objects0 and loc_of.get((d['fam'], c)) not in w.backend.objects)
+                        through = (f' issued through a client in state {st["client"]["state"]} (cache directory {st["client"]["cache_dir"]}, '
+                                   f'{"one long-lived Repository object" if st["client"]["long_lived"] else "a fresh Repository object"})') if st.get('client') else ''
                         viol.append(('c06', f'access:{rel}-key-damaged-foreign-snapshot',
-                                     f'after {st["kind"]} by {st["user"]} ({u.kind}) snapshot #{s} of key {d["owner"]} no longer restores exactly ({err or "content differs"})', rp))
+                                     f'after {st["kind"]} by {st["user"]} ({u.kind}){through} snapshot #{s} of key {d["owner"]} no longer restores exactly with its '
+                                     f'owner\'s key ({err or "content differs"}); the command removed {len(gone)} of the {len(set(d["body"]["chunks"]))} chunks it references', rp))
             # ---- observations by EVERY user
             st['queries'], st['obs'] = [], []
             for vi in range(len(w.users)):
                 q, o = observe_user(w, vi, r, viol, step_no, extra)
                 st['queries'] += q
                 st['obs'] += o
+                if w.clients is not None and w.clients['observe_through_client']:
+                    vk = w.clients['cache'][vi] if w.clients['cache'][vi] is not None else ('object', vi) if w.clients['long_lived'] else None
+                    if vk is not None:
+                        loaded_through.add((vk, w.users[vi].keyid, w.users[vi].fam))
             st['n_present'] = len(present(w))
             log['steps'].append(st)
         # summary for non-triviality
@@ -565,6 +727,12 @@ def run_world(arg):
         log['keys_with_snapshots'] = len({(d['owner'], d['fam']) for d in w.snap_by_sid.values()})
         log['n_snapshots'] = len(w.snap_by_sid)
         extra.pop('recorded', None)
+        if w.clients is not None:
+            settle_loaders(w)
+            if w.clients['long_lived']:
+                w._repos = None
+                R.PERSISTENT_LOOP.close()
+                R.PERSISTENT_LOOP = None
     log['flags'] = sorted(log['flags'])
     return log
 
@@ -645,6 +813,33 @@ def check_world(log, drv, out, prop):
                     out.disagreement(f'user {q["user"]}: ' + '; '.join(bad), dict(rp, user=q['user']))
                 else:
                     out.traces_validated += 1
+        # ---- the client's persistent state: the real command through the real cache directory vs `CacheCmd.stepC` on the
+        #      abstracted directory, and what the directory holds afterwards vs `cacheAfterLoad` / `cacheAfterDelete`
+        csteps = [(i, st) for i, st in enumerate(log['steps']) if (st.get('client') or {}).get('cache_before') is not None]
+        creplies = drv.ask_many([{'op': 'access.client', 'enc': enc, 'store': st['store_before'], 'cache': st['client']['cache_before'], 'cmd': st['op']}
+                                 for _, st in csteps]) if csteps else []
+        from .cachekit import canon_cache
+        for (i, st), m in zip(csteps, creplies):
+            rp = {'kind': 'world', 'idx': log['idx'], 'step': i, 'mode': log['mode'], 'label': log['label'], 'n_ops': log['n_ops'], 'seed': out.seed,
+                  'what': 'client-state'}
+            if 'store' not in m:
+                out.disagreement('driver error: ' + str(m.get('error')), rp)
+                continue
+            bad = []
+            if canon_store(m['store']) != canon_store(st['store_after']):
+                a, b = set(canon_store(m['store'])), set(canon_store(st['store_after']))
+                bad.append(f'object map after {st["kind"]} through a client with a cache directory ({st["client"]["state"]}): only in model '
+                           f'{sorted(a - b)[:2]}, only in implementation {sorted(b - a)[:2]}')
+            if (m['error'] or None) != st['error']:
+                bad.append(f'error kind through a cached client: model {m["error"]} implementation {st["error"]}')
+            if st['error'] in (None, 'not_available') and st['client'].get('settled') and not bad:
+                a, b = set(canon_cache(m.get('cache_after'))), set(canon_cache(st['client']['cache_after']))
+                if a != b:
+                    bad.append(f'cache directory after {st["kind"]} by {st["user"]}: only in model {sorted(a - b)[:2]}, only in implementation {sorted(b - a)[:2]}')
+            if bad:
+                out.disagreement('; '.join(bad), rp)
+            else:
+                out.traces_validated += 1
         if 'unlock' in log:
             req, obs = log['unlock']
             m = drv.ask(req)
